@@ -36,22 +36,39 @@ impl CombEngine {
         let nontrivial = out.inconclusive.is_none() && (self.prop.nontrivial)(case, &out);
         let labels = labels(case, &out);
         let mut violations = if out.inconclusive.is_some() { Vec::new() } else { std::mem::take(&mut out.world.viol) };
-        // ownership clauses that are part of a family's own statement:
-        // C05 "values already produced by other children are dropped rather than
-        // returned", C06 "the losing children ... are dropped, unfinished,
-        // together with the race future", C09 "drops - never yields - such
-        // unmatched items"
-        let fold: Option<(Family, Oracle)> = match self.prop.id {
-            "C05" => Some((Family::TryJoin, Oracle::DV)),
-            "C06" => Some((Family::Race, Oracle::D)),
-            "C09" => Some((Family::Zip, Oracle::DV)),
-            _ => None,
+        // Shared-oracle violations that belong to a family's own statement, when
+        // that family is the culprit (see DESIGN.md section 4, Attribution):
+        // * ownership clauses: C05 "values already produced by other children
+        //   are dropped rather than returned", C06 "the losing children ... are
+        //   dropped, unfinished, together with the race future", C09 "drops -
+        //   never yields - such unmatched items";
+        // * progress: every family statement says *when* the combinator
+        //   resolves / yields / ends ("in the very poll in which ..."); a
+        //   combinator that loses a wake-up, is left Pending at quiescence
+        //   although it could go on, or never polls one of its children never
+        //   gets there, so L, P and Conc count for the family that is to blame.
+        let fams: &[Family] = match self.prop.id {
+            "C04" => &[Family::Join],
+            "C05" => &[Family::TryJoin],
+            "C06" => &[Family::Race],
+            "C07" => &[Family::RaceOk],
+            "C08" => &[Family::Merge],
+            "C09" => &[Family::Zip],
+            "C10" => &[Family::Chain],
+            "C19" => &[Family::WaitF, Family::WaitS],
+            _ => &[],
         };
-        if let Some((fam, which)) = fold {
+        if !fams.is_empty() {
+            let own = |o: Oracle| match self.prop.id {
+                "C05" | "C09" => o == Oracle::DV,
+                "C06" => o == Oracle::D,
+                _ => false,
+            };
             let extra: Vec<world::Violation> = violations
                 .iter()
-                .filter(|v| v.oracle == which && v.fam == Some(fam))
-                .map(|v| world::Violation { oracle: Oracle::Func(fam), msg: format!("[{:?}] {}", v.oracle, v.msg), fam: Some(fam) })
+                .filter(|v| matches!(v.fam, Some(f) if fams.contains(&f)))
+                .filter(|v| matches!(v.oracle, Oracle::L | Oracle::P | Oracle::Conc) || own(v.oracle))
+                .map(|v| world::Violation { oracle: Oracle::Func(v.fam.unwrap()), msg: format!("[{:?}] {}", v.oracle, v.msg), fam: v.fam })
                 .collect();
             violations.extend(extra);
         }
